@@ -1126,6 +1126,22 @@ fn const_fact<'tcx>(tcx: TyCtxt<'tcx>, did: DefId, dk: DefKind) -> Option<J> {
         }
         Ok(mir::ConstValue::Indirect { alloc_id, offset }) => {
             if let ty::Array(elem, _) = t.kind() {
+                if matches!(elem.kind(), ty::Char) {
+                    let alloc = tcx.global_alloc(alloc_id).unwrap_memory();
+                    let inner = alloc.inner();
+                    let start = offset.bytes() as usize;
+                    let bytes =
+                        inner.inspect_with_uninit_and_ptr_outside_interpreter(start..inner.len());
+                    let chars: Vec<J> = bytes
+                        .chunks(4)
+                        .filter(|c| c.len() == 4)
+                        .map(|c| {
+                            let v = u32::from_le_bytes([c[0], c[1], c[2], c[3]]);
+                            J::s(char::from_u32(v).map(|x| x.to_string()).unwrap_or_default())
+                        })
+                        .collect();
+                    o.push(("chars", J::Arr(chars)));
+                }
                 if matches!(elem.kind(), ty::Uint(ty::UintTy::U8)) {
                     let alloc = tcx.global_alloc(alloc_id).unwrap_memory();
                     let inner = alloc.inner();
